@@ -59,8 +59,9 @@ static void outLik(Out& o, std::pair<bool, VectorXd> l) {
 // One correction object of each kind, driven through one or several successive correct() + getLikelihood()
 // calls (component count, measurement, belief and failing calls vary from call to call).
 //   sukf  n msz bs red k alpha beta kappa hkind failM failP failI H h0 y R means covs outw
-//   sukfs n msz bs red alpha beta kappa hkind H h0 R ncalls { k failM failP failI y means covs outw }*
-struct Call { long k; bool failM, failP, failI; VectorXd y; MatrixXd means, covs; VectorXd outw; };
+//   sukfs n msz bs red alpha beta kappa hkind H h0 R ncalls { k failM failP failI rscale y means covs outw }*
+// (the noise covariance the model reports in a call is rscale * R: time-varying noise)
+struct Call { long k; bool failM, failP, failI; double rscale; VectorXd y; MatrixXd means, covs; VectorXd outw; };
 
 static std::string runCalls(long n, long msz, long bs, bool red, double alpha, double beta, double kappa, int kind,
                             const MatrixXd& H, const VectorXd& h0, const MatrixXd& R, const std::vector<Call>& calls) {
@@ -69,8 +70,8 @@ static std::string runCalls(long n, long msz, long bs, bool red, double alpha, d
     SUKFCorrection sukfc(std::unique_ptr<AdditiveMeasurementModel>(ms), alpha, beta, kappa, (std::size_t)bs, red);
     // the standard additive correction is given the full covariance the encoding stands for
     HModel* mu = nullptr; std::unique_ptr<UKFCorrection> ukfc;
+    MatrixXd Rfull = R;
     if (divides) {
-        MatrixXd Rfull = R;
         if (red) { Rfull = MatrixXd::Zero(msz, msz); for (long i = 0; i < msz / bs; ++i) Rfull.block(bs * i, bs * i, bs, bs) = R; }
         mu = new HModel(kind, H, h0, VectorXd::Zero(msz), Rfull, false, false, false);
         ukfc.reset(new UKFCorrection(std::unique_ptr<AdditiveMeasurementModel>(mu), alpha, beta, kappa));
@@ -84,6 +85,7 @@ static std::string runCalls(long n, long msz, long bs, bool red, double alpha, d
         pred.mean() = c.means; pred.covariance() = c.covs;
         for (GaussianMixture* g : { &corrS, &corrU }) { g->mean().setConstant(12345.0); g->covariance().setConstant(-54321.0); g->weight() = c.outw; }
         MatrixXd m0 = pred.mean(), c0 = pred.covariance(), w0 = pred.weight();
+        ms->R_ = c.rscale * R; if (mu) mu->R_ = c.rscale * Rfull;
         for (HModel* m : { ms, mu }) if (m) { m->y_ = c.y; m->failM_ = c.failM; m->failP_ = c.failP; m->failI_ = c.failI; m->X_.resize(0, 0); m->Y_.resize(0, 0); }
         std::pair<bool, VectorXd> likS0 = firstCall ? sukfc.getLikelihood() : std::make_pair(false, VectorXd());
         sukfc.correct(pred, corrS);
@@ -111,7 +113,7 @@ static std::string runCalls(long n, long msz, long bs, bool red, double alpha, d
 }
 
 static Call readCall(Toks& t, long n, long msz) {
-    Call c; c.k = t.nat(); c.failM = t.flag(); c.failP = t.flag(); c.failI = t.flag();
+    Call c; c.k = t.nat(); c.failM = t.flag(); c.failP = t.flag(); c.failI = t.flag(); c.rscale = t.dbl();
     c.y = t.vec(msz); c.means = t.mat(n, c.k); c.covs = t.mat(n, n * c.k); c.outw = t.vec(c.k);
     return c;
 }
@@ -122,7 +124,7 @@ static std::string sukf(Toks& t) {
     int kind = (int)t.nat(); bool failM = t.flag(), failP = t.flag(), failI = t.flag();
     MatrixXd H = t.mat(msz, n); VectorXd h0 = t.vec(msz), y = t.vec(msz);
     MatrixXd R = red ? t.mat(bs, bs) : t.mat(msz, msz);
-    Call c; c.k = k; c.failM = failM; c.failP = failP; c.failI = failI; c.y = y;
+    Call c; c.k = k; c.failM = failM; c.failP = failP; c.failI = failI; c.rscale = 1.0; c.y = y;
     c.means = t.mat(n, k); c.covs = t.mat(n, n * k); c.outw = t.vec(k);
     t.done();
     return runCalls(n, msz, bs, red, alpha, beta, kappa, kind, H, h0, R, { c });
